@@ -146,6 +146,15 @@ reader takes the bbolt lock without `confMu`. -/
 theorem C05_program_gated : acqsGated gates acqs = true := by
   decide +kernel
 
+/-- Obligation 4 (regenerated table): every potentially blocking channel
+operation made while a lock is possibly held is justified by structural facts
+the extractor re-checked (see `ChanOpRow`).  Channels are outside the lock
+machine: this is a table obligation, not a consequence of the generic
+theorems; it is what fails when the send on `filtersInitializerChan` leaves the
+critical section of `filtersInitializerLock` that drains the channel. -/
+theorem C05_program_no_blocking_under_lock : chanOpsJustified chanOps = true := by
+  decide +kernel
+
 /-- Every goroutine set whose blocking nested acquisitions are (non-finding)
 edges of the table and whose acquisitions of gated locks come from non-finding
 sites of the table, with balanced releases, is free of deadlocks and wait-for
